@@ -165,9 +165,10 @@ def run_history(rng, version, flavour, steps, *, profile=None, calls=True, persi
     if real_link is None:
         real_link = not mqtt and rng.random() < 0.5
     tcp = not mqtt and not real_link and rng.random() < 0.5        # the TCP gateway classes instead of the base classes
-    drv = Driver(version, flavour, interner, persistence_file=persist, raising_cb=raising_cb, mqtt=mqtt, no_callback=no_callback,
-                 spelling=rng.choice(SPELLINGS[version]), real_link=real_link, tcp=tcp)
     gen = Gen(rng, version, profile)
+    react_fw = rng.choice(gen.fws) if (not no_callback and rng.random() < 0.25) else None
+    drv = Driver(version, flavour, interner, persistence_file=persist, raising_cb=raising_cb, mqtt=mqtt, no_callback=no_callback,
+                 spelling=rng.choice(SPELLINGS[version]), real_link=real_link, tcp=tcp, react_fw=react_fw)
     gen.extra_text = LONE_SURROGATE if surrogate else None
     gen.ota_nodes = []
     gen.pending = []
